@@ -104,7 +104,7 @@ fn gen_real(r: &mut R, d: u32) -> J {
 fn gen_bool(r: &mut R, d: u32) -> J {
     if d == 0 || r.gen_bool(0.15) { return if r.gen_bool(0.2) { lit(null()) } else { bool_lit(r) }; }
     let cmp = (pick(r, &["=", "!=", "<", "<=", ">", ">="]));
-    match r.gen_range(0..16) {
+    match r.gen_range(0..18) {
         // REAL against REAL (the two zeros are one value: -0.0 from a literal, from 0.0 * negative, from - 0.0), also through IN
         14 => json!({"op": "cmp", "f": cmp, "a": gen_real(r, d - 1), "b": gen_real(r, d - 1)}),
         15 => json!({"op": "in", "neg": r.gen_bool(0.5), "a": gen_real(r, d - 1), "vs": (0..r.gen_range(1..4)).map(|_| gen_real(r, 0)).collect::<Vec<_>>()}),
@@ -112,8 +112,9 @@ fn gen_bool(r: &mut R, d: u32) -> J {
         11 => { let t = pick(r, &["2021-03-04 05:06:07", "2021-03-04 05:06:08", "2021-3-4", "never"]);
                 json!({"op": "cmp", "f": cmp, "a": gen_ts(r, d - 1), "b": lit(json!({"t": "text", "s": t.chars().map(|c| c as u32).collect::<Vec<_>>()}))}) }
         12 => json!({"op": "cmp", "f": cmp, "a": gen_iv(r, d - 1), "b": gen_iv(r, d - 1)}),
-        13 => { let p = pick(r, RX_PATTERNS);
-                json!({"op": "call", "f": "regex_matches", "args": [gen_text(r, d - 1), lit(json!({"t": "text", "s": p.chars().map(|c| c as u32).collect::<Vec<_>>()}))]}) }
+        13 | 16 | 17 => { let p = pick(r, RX_PATTERNS);
+                let subject = if r.gen_bool(0.6) { let t = pick(r, RX_TEXTS); lit(json!({"t": "text", "s": t.chars().map(|c| c as u32).collect::<Vec<_>>()})) } else { gen_text(r, d - 1) };
+                json!({"op": "call", "f": "regex_matches", "args": [subject, lit(json!({"t": "text", "s": p.chars().map(|c| c as u32).collect::<Vec<_>>()}))]}) }
         0..=2 => json!({"op": "cmp", "f": cmp, "a": gen_int(r, d - 1), "b": gen_int(r, d - 1)}),
         3 => json!({"op": "cmp", "f": cmp, "a": gen_text(r, d - 1), "b": gen_text(r, d - 1)}),
         4 => json!({"op": "cmp", "f": cmp, "a": gen_int(r, d - 1), "b": gen_real(r, d - 1)}),
@@ -128,6 +129,8 @@ fn gen_bool(r: &mut R, d: u32) -> J {
 /// patterns of regex_matches: what they match on a given text is asked of the regex crate (the `rx` table of an event), not modelled
 const RX_PATTERNS: &[&str] = &["a", "^a", "b$", "^ab$", "(", "x y", "", "[a", "a{2}", "={2}", "={10}", "o{2}", "a{", "a|b", "[ab]+", "^.$", "\\d+", "(?i)AB", ".", "a*", "a.b", "\\bA",
                                "[[:alpha:]]+", "1{1,2}$", "^$", "c{1}", "b{2,}", "k=a", "v=\\d", "^k=(a|bc) v=-?\\d+$", "a+?", "\\", "*", "T", "true|false", "0{2}:0{2}"];
+
+const RX_TEXTS: &[&str] = &["aa", "aaa", "==", "a{2}", "a.b", "axb", "AB", "ab", "a", "", "k=a v=1", "k=bc v=-7", "11", "1", "bb", "oo", "o{2}", "={2}", "a{", "true", "00:00", "x y", "A", "b", "a|b", "é", "c", "T", "==========", "={10}"];
 
 /// every regex_matches(text, 'literal pattern') node of the tree: (text argument, pattern)
 fn rx_nodes(e: &J, out: &mut Vec<(J, String)>) {
